@@ -229,11 +229,28 @@ def impl_client(c):
 
 
 def model_lines(c, obs):
-    return []
+    if c["t"] == "client":
+        return ["heap\tsettings"]
+    cfg = CFGV[c["v"]]
+    return ["\t".join(["heap", "usage", "1" if cfg["c1_rules"] else "0", "1" if cfg["c1_rules"] else "0"]), "heap\tsettings"]
 
 
 def compare(c, obs, outs):
-    return []
+    """the model (instantiated with the flow flags read off the source) predicts whether the client record / the endpoint and schema
+    tables stay as they were; the snapshots say what happened"""
+    d = []
+    roots = [ch["root"] for ch in obs["changes"]]
+    if c["t"] == "batch":
+        got = "changed" if any(r.startswith("cdb.") and r.endswith("token_usage_rules") for r in roots) else "unchanged"
+        if outs[0] != got:
+            d.append(f"client record token_usage_rules: model={outs[0]} implementation={got}")
+        settings = [r for r in roots if r.startswith("endpoint.token_revocation.") or r.startswith("endpoint.userinfo.config")]
+    else:
+        settings = [r for r in roots if ".c_param" in r]
+    got = "changed" if settings else "unchanged"
+    if outs[-1] != got:
+        d.append(f"endpoint / schema settings: model={outs[-1]} implementation={got} {settings[:2]}")
+    return d
 
 
 def oracle(c, obs):
